@@ -126,7 +126,7 @@ def main(ck):
       island = int(rng.randint(2))
       jac = int(rng.choice([E.mjJAC_DENSE, E.mjJAC_SPARSE]))
       warm = int(rng.randint(2))
-      if jac == E.mjJAC_SPARSE and redM and (solver == PGS or noslip):
+      if jac == E.mjJAC_SPARSE and redM and (solver == PGS or noslip or case.get('diagexact')):
         labels.add('excluded:sparse-dual-on-reduced-M')
         jac = E.mjJAC_DENSE
       if noslip and case.cone == 'elliptic' and has_fric:
